@@ -1102,6 +1102,13 @@ def fam_bad(tier, seed):
         ok = "Clone" in dl
         mk("R8_memoize_%s" % dn, [Rule("S", Call("A", "x"), export=True), Rule("A", Lit("a"), memoize=True)],
            "code" if ok else "error", derives=",".join(dl) if dl else "", derives_list=dl)
+        mk("R8_leftrec_%s" % dn, [Rule("S", Call("E", "x"), export=True),
+                                  Rule("E", Choice(Seq(Call("E", "l", boxed=True), Lit("+"), Call("N", "r")), Call("N", "r")), leftrec=True),
+                                  Rule("N", Lit("n"))],
+           "code" if ok else "error", derives=",".join(dl) if dl else "", derives_list=dl)
+        mk("R8_leftrec_string_%s" % dn, [Rule("S", Call("L", "x"), export=True),
+                                         Rule("L", Choice(Seq(Call("L"), Lit("a")), Lit("b")), leftrec=True, string=True)],
+           "code" if ok else "error", derives=",".join(dl) if dl else "", derives_list=dl)
         mk("R8_plain_%s" % dn, [Rule("S", Call("A", "x"), export=True), A()], "code", derives=",".join(dl) if dl else "", derives_list=dl)
     # R9 non-ASCII case-insensitive literals
     mk("R9_ci_nonascii_char", [Rule("S", Lit("é", ci=True), export=True)], "error")
@@ -1390,6 +1397,12 @@ def fam_types(tier, seed):
         g = Grammar("x", rules, meta={"shape": "derives_" + "_".join(dv)})
         g.alpha = ["a"]
         add(g, derives=dv)
+        # the growth cache of a @leftrec rule holds results like a @memoize cache does
+        if "Clone" in dv:
+            lr = copy.deepcopy(kinds[3][1])
+            g = Grammar("x", lr, meta={"shape": "derives_leftrec_" + "_".join(dv)})
+            g.alpha = ["n"]
+            add(g, derives=dv)
     return out
 
 
